@@ -17,8 +17,9 @@ Ltac inv_some :=
 
 (* all projections and update functions of the state: never unfolds `upd`, `syscall`, `step` *)
 Ltac simp :=
-  cbn [now P pend flag co tmr busy closed A Sb nexts T nextt Sel Cn
-       mk wnow wP wpend wflag wco wtmr wbusy wclosed wA wS wnexts wT wnextt wSel wCn
+  cbn [now P pend flag co tmr busy closed A Sb nexts T nextt Sel Cn Kn
+       mk wnow wP wpend wflag wco wtmr wbusy wclosed wA wS wnexts wT wnextt wSel wCn wKn
+       kq kst ktgt kdeliv kest kacc k_st k_start k_deliv k_push k_pop
        apc afd akind acn ato adat an apara acanc acio aawake atcall ahome alast
        mkA a_pc a_ret a_dead a_susp a_home a_wake a_wake_to a_resume a_canc a_cio a_cio_pc
        spc_ sa sfd sto scn s_pc tstate tdl tev tmin t_null t_pop
@@ -40,6 +41,8 @@ Ltac step_cases H :=
   | context [match Cn ?s ?a with _ => _ end] => let E := fresh "Ecn" in destruct (Cn s a) eqn:E
   | context [match tstate ?t with _ => _ end] => let E := fresh "Ets" in destruct (tstate t) eqn:E
   | context [match tev ?t with _ => _ end] => let E := fresh "Etev" in destruct (tev t) eqn:E
+  | context [match kst ?k with _ => _ end] => let E := fresh "Ekst" in destruct (kst k) eqn:E
+  | context [match ?k with Rd => _ | _ => _ end] => is_var k; destruct k
   | context [if ?c then _ else _] => let E := fresh "Ec" in destruct c eqn:E
   end; try discriminate; inv_some.
 
